@@ -42,6 +42,11 @@ def cells(tier):
             out.append(cell(f"s{size} G={gn} H=A2 flush,cgroup", sc, MON))
         sc = scen(pool(size), [G["M3/1"], H["A2"], [FLUSH], [CALL]], outcomes=["ret"])
         out.append(cell(f"s{size} G=M3/1 H=A2 flush call", sc, MON))
+    for size in [1, 2]:
+        sc = scen(pool(size), [G["A3"], H["A2"], [["cancel_group", "G", {"msg": "stop it"}]], [["cancel", rid("H", 0), {"msg": "you too"}]]], outcomes=["ret"], ecb="plain", ccb="plain")
+        out.append(cell(f"s{size} G=A3 H=A2 cgroup(msg) cancelH0(msg)", sc, MON))
+        sc = scen(pool(size), [G["M3/1"], H["A2"], [["cancel_all", {"msg": "all"}]]], outcomes=["ret"])
+        out.append(cell(f"s{size} G=M3/1 H=A2 call(msg)", sc, MON))
     sc = scen(pool(2, "SimpleTaskPool", ecb="plain", ccb="plain"), [[S("G", 3)], [S("H", 2)], [cgroup("G")]], outcomes=["ret"])
     out.append(cell("simple s2 G=S3 H=S2 cgroup", sc, MON))
     if not q:
